@@ -17,6 +17,10 @@
                                                                  every length; all_chunk_records for the tables
     record lists closed by a blank line (ROCKS ELEME CONNE …)     untilBlank_roundtrip
     "0..12 default initial conditions" and the look-ahead         untilKeyword_roundtrip, param_default_incons_roundtrip
+    "every rock type" (incl. the 7th RP/CP parameter)             section_roundtrip_ROCKS, seven_parameters_kept
+    "simulation parameter"                                        value_line_roundtrip (the three PARAM lines), chunked_roundtrip
+                                                                 (time steps), param_default_incons_roundtrip;
+                                                                 section_roundtrip_RPCAP, section_roundtrip_dict (LINEQ SOLVR MULTI)
     "output time"                                                 section_roundtrip_TIMES
     "block", "connection"                                         section_roundtrip_ELEME, section_roundtrip_CONNE
                                                                  (main and extra-precision tables)
@@ -29,8 +33,8 @@
     "from then on every further cycle reproduces them"            write_read_fixpoint
     "both simulator flavours"                                     flavour_param_spec
     tie to the tables and dispatch of /repo                       all_records_wf, dispatch_as_modelled
-  Not proved as theorems (modelled and checked by the correspondence and the oracle only): the round trips of
-  ROCKS, PARAM, RPCAP, LINEQ/SOLVR/MULTI, SELEC, DIFFU, INDOM, SHORT, MESHM at section level, the
+  Not proved as theorems (modelled and checked by the correspondence and the oracle only): the composition of the
+  PARAM lines into one PARAM section statement, the round trips of SELEC, DIFFU, INDOM, SHORT, MESHM at section level, the
   composition of all section round trips into `read (write d) = canon d` for whole objects, the binary
   MESHA/MESHB pair, and idempotence of `canonV` on reals (C02's domain).
 -/
@@ -202,6 +206,50 @@ theorem section_roundtrip_GENER (T : Tabs) (hT : T = mainTabs ∨ T = xpTabs) (g
   let h := gener_shape T hT
   Proofs.T2.section_roundtrip_GENER h.1 h.2.1 h.2.2.1 h.2.2.2.1 h.2.2.2.2 gs hg hw rest
 
+/-- **section_roundtrip_ROCKS** for the main and the extra-precision table of the current /repo: the nine-field
+    line, for NAD ≥ 1 the line of seven further attributes, for NAD ≥ 2 the relative-permeability and capillarity
+    lines with all **seven** parameters each (`canonRP` keeps seven positions) -/
+theorem section_roundtrip_ROCKS (T : Tabs) (hT : T = mainTabs ∨ T = xpTabs) (rs : List Rock)
+    (hg : ∀ rt ∈ rs, GoodRock (fieldAt T c!"rocks1" 1) rt) (hw : ∀ rt ∈ rs, ∃ ls, writeRock T rt = .ok ls) (rest : List Str) :
+    readRocks .default T ((rs.map (fun rt => match writeRock T rt with | .ok ls => ls | .error _ => [])).flatten ++ nl [] :: rest) =
+      .ok ((rs.map (canonRock (recOf T c!"rocks1.1") (fieldAt T c!"rocks1" 2) (fieldAt T c!"rocks1" 3) (fieldAt T c!"rocks1" 4)
+              (fieldAt T c!"rocks1" 5) (fieldAt T c!"rocks1" 6) (fieldAt T c!"rocks1" 7) (fieldAt T c!"rocks1" 8)
+              (fieldAt T c!"rocks1.2" 0) (fieldAt T c!"rocks1.2" 2))).foldl addRock [], rest) :=
+  let h := rock_shape T hT
+  Proofs.T2.section_roundtrip_ROCKS h.1 h.2.1 h.2.2.1 h.2.2.2.1 h.2.2.2.2 rs hg hw rest
+
+/-- the seventh parameter is there: a function with seven parameters reads back with seven parameters -/
+theorem seven_parameters_kept (ft fp : FieldSpec) (p : RP) (h : p.params.length = 7) :
+    (canonRP ft fp p).params = p.params.map (canonV fp) ∧ (canonRP ft fp p).params.length = 7 := by
+  unfold canonRP
+  simp [h]
+
+/-- **section_roundtrip_RPCAP** for the main and the extra-precision table of the current /repo -/
+theorem section_roundtrip_RPCAP (T : Tabs) (hT : T = mainTabs ∨ T = xpTabs) (rp cp : RP)
+    (hl1 : rp.params.length ≤ 7) (hl2 : cp.params.length ≤ 7) {lines : List Str}
+    (hw : writeRPCap T ⟨some rp, some cp⟩ = .ok lines) (rest : List Str) :
+    ∃ body, lines = nl c!"RPCAP" :: body ∧
+      readRPCap .default T (body ++ rest) =
+        .ok (⟨some (canonRP (fieldAt T c!"relative_permeability" 0) (fieldAt T c!"relative_permeability" 2) rp),
+              some (canonRP (fieldAt T c!"capillarity" 0) (fieldAt T c!"capillarity" 2) cp)⟩, rest) :=
+  let h1 := rp_shape T hT c!"relative_permeability" (by simp)
+  let h2 := rp_shape T hT c!"capillarity" (by simp)
+  Proofs.T2.section_roundtrip_RPCAP h1.1 h2.1 h1.2 h2.2 rp cp hl1 hl2 hw rest
+
+/-- **section_roundtrip_LINEQ / SOLVR / MULTI** (current main table; MULTI in both flavours, before `eos` is
+    stripped): a keyword line and one dictionary line -/
+theorem section_roundtrip_dict (kw rec : Str)
+    (hrec : rec = c!"lineq" ∨ rec = c!"solver" ∨ rec = c!"multi" ∨ rec = c!"multi_autough2")
+    (d d0 : Dict) (hne : d ≠ []) {lines : List Str} (hw : writeDictSection mainTabs kw rec d = .ok lines) (rest : List Str) :
+    ∃ body, lines = nl kw :: body ∧
+      readDictSection .default mainTabs rec d0 (body ++ rest) =
+        .ok (absorb (recOf mainTabs rec).names (canonVals (recOf mainTabs rec) (lineVals (recOf mainTabs rec) d)) d0, rest) := by
+  have hT : mainTabs.get rec = .ok (recOf mainTabs rec) := by
+    rcases hrec with rfl | rfl | rfl | rfl <;> decide +kernel
+  have hr : RecWF (recOf mainTabs rec) := by
+    rcases hrec with rfl | rfl | rfl | rfl <;> exact recWFb_spec (by decide +kernel)
+  exact Proofs.T2.section_roundtrip_dict kw rec hT hr d d0 hne hw rest
+
 /-- **section_roundtrip_INCON** (current main table) -/
 theorem section_roundtrip_INCON (es : List Incon) (hn : ∀ e ∈ es, GoodName e.name)
     (hw : ∀ e ∈ es, ∃ ls, writeIncon mainTabs e = .ok ls) (d0 : List Incon) (rest : List Str) :
@@ -327,6 +375,15 @@ example : GoodGener (fun i => fieldAt mainTabs c!"generator" i) (fieldAt mainTab
     enthLen := by decide +kernel,
     enthItab := by intro _ s h; cases h; decide +kernel,
     present := by decide +kernel, presentR := by decide +kernel, presentE := by decide +kernel }
+-- a rock type with NAD = 2 and seven-parameter functions
+def exRP : RP := ⟨.int 7, [.real (1/5), .real (1/10), .real 1, .real (1/100), .real 2, .real 3, .real 4]⟩
+def exCP : RP := ⟨.int 7, [.real (1/5), .real (11/100), .real (17/20000), .real 10000000000, .real 1, .real 0, .real 9]⟩
+def exRock2 : Rock := { exRock with nad := .int 2, extra := defaultRockExtra, rp := some exRP, cp := some exCP }
+example : GoodRock (fieldAt mainTabs c!"rocks1" 1) exRock2 :=
+  { name := ⟨_, rfl, rfl, by decide, by decide +kernel⟩, nad := Or.inr ⟨2, rfl⟩, nadKeep := by decide +kernel, perm := rfl,
+    rp := fun _ => ⟨exRP, rfl, by decide⟩, cp := fun _ => ⟨exCP, rfl, by decide⟩ }
+example : ∃ ls, writeRock mainTabs exRock2 = .ok ls ∧ ls.length = 4 := by
+  refine ⟨(match writeRock mainTabs exRock2 with | .ok l => l | .error _ => []), ?_, ?_⟩ <;> decide +kernel
 -- visible history items
 example : Visible c!"abc12" := ⟨rfl, by decide +kernel⟩
 -- a one-section chain for `sections_preserved`: a file `START / ENDCY`
